@@ -141,7 +141,9 @@ def oracle_run_events(args):
         for (tm, fr_, to_, _z) in allfr:
             if (fr_, to_) not in keys:
                 problems.append("frustrated_hop event %d->%d at t=%r without a rejection" % (fr_, to_, tm))
-        return not problems, {"state_changes": nchanges, "rejections": nrej, "problems": problems[:4]}, \
+        multi = sum(1 for tr in traces if 1 <= getattr(tr, "_verif_inherited", 0) < len(getattr(tr, "_verif_fr", [])))
+        return not problems, {"state_changes": nchanges, "rejections": nrej, "traces": len(traces), "traces_with_inherited_and_own_rejections": multi,
+                              "problems": problems[:4]}, \
             {"problems": []}, "; ".join(problems[:3]) or "ok"
     finally:
         if tmp:
@@ -209,13 +211,37 @@ def run(ctx):
     rc.run_correspondence(ctx, ctx.budget(12, 300), hops=True, label="shrun")
 
     # run level: events vs active sequence, both stores
+    # (how many hops and rejections a batch of random runs contains varies a lot with the seed: batches are added until the
+    # check has seen a minimum of both, so that a quiet seed does not mean a weak check)
     specs = c01._run_specs(ctx, ctx.budget(16, 160))
-    for i, spec in enumerate(specs):
+    i = -1
+    seen_changes = seen_rej = seen_rej_es = 0
+    while True:
+        i += 1
+        if i >= len(specs):
+            if (seen_changes >= 60 and seen_rej >= 20 and seen_rej_es >= 3) or len(specs) >= ctx.budget(80, 320):
+                break
+            # rejections over two generations of an even-sampling TREE (a trace that inherited a rejection from the trace it was
+            # cloned from and then suffered its own) are what the per-trace event bookkeeping is about: when they are what is
+            # missing, cold trees on the lowest state are added (upward hops mostly frustrated)
+            if seen_changes >= 60 and seen_rej >= 20:
+                more = c01._run_specs(ctx, 8, only="EvenSamplingTrajectory")
+                for sp in more:
+                    sp.update(p0=list(rng.normal(size=sp["n"]) * 0.5 + 0.5), state=0, gap=0.05, dt=1.0, coherent=False)
+                specs += more
+            else:
+                specs += c01._run_specs(ctx, 8)
+            ctx.count("run_batches_added_for_minimum_events")
+        spec = specs[i]
         if i % 2 == 1 and spec["cls"] in ("TrajectorySH", "TrajectoryCum"):
             spec["store"] = "yaml"
             spec["pitch"] = int(rng.integers(1, 9))
             spec["steps"] = min(spec["steps"], 60)
         ok, obs, req, text = oracle_run_events(spec)
+        seen_changes += int(obs.get("state_changes", 0))
+        seen_rej += int(obs.get("rejections", 0))
+        seen_rej_es += int(obs.get("traces_with_inherited_and_own_rejections", 0))
+        ctx.count("run_traces_with_inherited_and_own_rejections", int(obs.get("traces_with_inherited_and_own_rejections", 0)))
         ctx.case(("run", spec["cls"], spec.get("store", "memory"), obs["state_changes"] > 0, obs["rejections"] > 0))
         ctx.count("run:%s:%s" % (spec["cls"], spec.get("store", "memory")))
         ctx.count("run_state_changes", obs["state_changes"])
